@@ -146,6 +146,18 @@ where
     /// ```
     pub fn find(&self, prefix: P) -> Option<TrieView<'a, P, T>> {
         let mut idx = self.loc.idx();
+        // The descent below is only meaningful if the root node of this view covers `prefix`.
+        if !self.table[idx].prefix.contains(&prefix) {
+            return if prefix.contains(&self.table[idx].prefix) {
+                // `prefix` covers the entire view.
+                Some(Self {
+                    table: self.table,
+                    loc: ViewLoc::Virtual(prefix, idx),
+                })
+            } else {
+                None
+            };
+        }
         loop {
             match self.table.get_direction_for_insert(idx, &prefix) {
                 DirectionForInsert::Enter { next, .. } => {
@@ -260,6 +272,10 @@ where
     /// ```
     pub fn find_lpm(&self, prefix: &P) -> Option<TrieView<'a, P, T>> {
         let mut idx = self.loc.idx();
+        // nothing in this view can cover `prefix` if the root node of the view does not.
+        if !self.table[idx].prefix.contains(prefix) {
+            return None;
+        }
         let mut best_match = None;
         loop {
             if self.table[idx].value.is_some() {
@@ -694,6 +710,16 @@ where
         // is still not covered by any other view), while dropping `self`.
 
         let mut idx = self.loc.idx();
+        // The descent below is only meaningful if the root node of this view covers `prefix`.
+        if !self.table[idx].prefix.contains(&prefix) {
+            return if prefix.contains(&self.table[idx].prefix) {
+                // `prefix` covers the entire view.
+                let new_loc = ViewLoc::Virtual(prefix, idx);
+                unsafe { Ok(Self::new(self.table, new_loc)) }
+            } else {
+                Err(self)
+            };
+        }
         loop {
             match self.table.get_direction_for_insert(idx, &prefix) {
                 DirectionForInsert::Enter { next, .. } => {
@@ -804,6 +830,10 @@ where
     /// ```
     pub fn find_lpm(self, prefix: &P) -> Result<Self, Self> {
         let mut idx = self.loc.idx();
+        // nothing in this view can cover `prefix` if the root node of the view does not.
+        if !self.table[idx].prefix.contains(prefix) {
+            return Err(self);
+        }
         let mut best_match = None;
         loop {
             if self.table[idx].value.is_some() {
